@@ -58,6 +58,10 @@ INTERNAL_HELPERS = {"unconstrained", "exact_n", "max_n", "predetermined", "qr_re
 RECEIVER_KIND = {"optimizer": "optimizers/", "basis": "basis/"}
 NORM_CALC = ["unconstrained", "exact_n", "max_n", "predetermined"]
 IN_PLACE_SWITCHES = ("overwrite_", "inplace", "copy_X")
+# external routines that receive the caller's **keywords and can be switched by them to overwrite an argument which is NOT an argument of
+# the user's own call (scipy.linalg.qr inside QR.fit: the optimizer's input - through SSPOR.fit the model's stored basis).  solve / lstsq
+# inside predict receive the measurements of that very call: overwrite_b=True there is the caller's own request about the caller's own array.
+SPREAD_OVERWRITES = {"qr": [0]}
 
 
 class Fn:
@@ -299,6 +303,12 @@ class Translator:
         if cands:
             return self.user_call(f, cands, pos, star, kw)
         # external callees
+        if isinstance(fn, ast.Name) and name in SPREAD_OVERWRITES and any(kd == "**" for kd, _ in star):
+            # the caller's keyword dictionary is forwarded to a LAPACK wrapper whose documented keywords include overwrite_*: the
+            # array arguments named here may be overwritten in place unless they are fresh copies
+            for i_ in SPREAD_OVERWRITES[name]:
+                if i_ < len(pos):
+                    f.body.append(("write", pos[i_]))
         if isinstance(fn, ast.Name):
             if name in FRESH_FUNCS or name in f.vars:      # a local callable is a user-supplied function (score, method, func): trusted not to mutate
                 self.used.add(("fresh", name) if name in FRESH_FUNCS else ("user_callable", name))
